@@ -34,7 +34,9 @@ FILES = [c07.fspec("ML", 40, "UPPER", pat="ramp7", load=0x3000, exec_=0x3005), c
          # addresses at the very top of memory, and a text file with DOS line ends and an end-of-file mark
          c07.fspec("ML", 14, "VECTORS", pat="ramp7", load=0xFFF2, exec_=0xFFFE), c07.fspec("ASC", 300, "DOSTEXT", "TXT", pat="dos"),
          # addresses in the zero page (their shortest hex form has two digits)
-         c07.fspec("ML", 12, "LOWPAGE", pat="ramp", load=0x0080, exec_=0x00C8)]
+         c07.fspec("ML", 12, "LOWPAGE", pat="ramp", load=0x0080, exec_=0x00C8),
+         # data and text files that are NOT flagged ASCII (stored with a length preamble on a disk)
+         c07.fspec("DATB", 40, "SCORES", "DAT", pat="ramp7"), c07.fspec("TXTB", 41, "NOTES", "TXT", pat="ramp")]
 DUP = 7
 
 
@@ -52,7 +54,7 @@ def source_sets(tier):
     yield [0, 1, DUP]
     yield [1, DUP, 0]
     for fs in ([8], [9], [10], [0, 8], [8, 9], [9, 1, 8], [10, 8, 0], [11], [0, 11], [11, 1, 5], [12], [12, 13], [13, 12, 0], [14], [14, 12],
-               [15], [0, 15], [16], [16, 1], [17], [17, 0]):
+               [15], [0, 15], [16], [16, 1], [17], [17, 0], [18], [19], [18, 0, 19]):
         yield fs
 
 
